@@ -5,7 +5,8 @@ CONSTANTS
   Coords <- Coords13
   DEN = 4
   MaxNum = 4
-  Base <- BaseLin2x2
+  Base <- TheBase
+  Which = "Lin2x2"
   Mults <- QMults
   Adds <- QAdds
   Exps <- QExps
